@@ -129,12 +129,12 @@ def objective(params):
   return tot
 
 
-def complete(suggestion, tid, infeasible=False, metrics=1):
+def complete(suggestion, tid, infeasible=False, metrics=1, value=None):
   t = suggestion.to_trial(tid)
   if infeasible:
     t.complete(vz.Measurement(), infeasibility_reason='harness: infeasible')
   else:
-    val = objective(pkey(suggestion))
+    val = objective(pkey(suggestion)) if value is None else value
     m = {'m': val}
     if metrics == 2:
       m['n'] = (val * 1.7) % 3.0
@@ -163,6 +163,17 @@ def cma_state(designer):
     if 'key' in key.lower() or 'rng' in key.lower() or 'rand' in key.lower():
       st.pop(key)
   return json.dumps(st, sort_keys=True)
+
+
+def lineage(suggestion):
+  """(parent ids, generations) an NSGA-II suggestion carries in its genes: which population members it
+  was bred from. Unlike the gene values this does not depend on the (unpersisted) RNG."""
+  try:
+    genes = json.loads(suggestion.metadata.ns('nsga2')['values'])
+    return (tuple(float(x) for x in np.ravel(genes['ids']['value'])),
+            tuple(float(x) for x in np.ravel(genes['generations']['value'])))
+  except Exception:  # pylint: disable=broad-except
+    return None
 
 
 def cma_counters(designer):
